@@ -308,7 +308,7 @@ func (in *Interp) fpToBits(f *Term) *Term {
 	}
 	b := in.freshVar("fpbits", BVSort(w))
 	in.fpBits[f] = b
-	in.assume(Eq(FPFromBits(b), f))
+	in.define(Eq(FPFromBits(b), f))
 	return b
 }
 
